@@ -23,10 +23,12 @@ func init() {
 			{ID: "R18.6", Configs: "asm", Run: ruleR18_6},
 			{ID: "R18.7", Configs: "asm", Run: ruleR18_7},
 			{ID: "R18.9", Configs: "asm", Run: ruleR18_9},
+			{ID: "R18.10", Configs: "asm", Run: ruleR18_10},
+			{ID: "R18.11", Configs: "all", Run: ruleR18_11},
 		},
 		Explanation: "Decides the structural agreements between the assembly arms and the Go code that 'acceleration never changes results' rests on: (R18.1) every memory operand of the 17 assembly routines whose base is a typed pointer (FP pointer argument or LEAQ of a Go global) lies in exactly one field of the Go struct at an element boundary with matching width and index scale, the set of fields (by name and constant element index) equals the confirmed table, and the fields each routine stores to are those of the write summaries used by C12/C17; " +
 			"(R18.2) FP names, offsets and argument sizes agree with the Go declarations; (R18.3) the outcome codes of the AVX2 decode loop are constants from the errorNo* set and Go maps every one of them to an error before any fallback; (R18.4) every dispatch variable is assigned on all paths of init (switch has a default) and every direct call of an assembly routine has a Go fallback on the other edge of a cpu.ArchLevel test; (R18.5) both build configurations declare the same dispatch points with identical signatures; " +
-			"(R18.6) every path to RET of the decode loop writes bits, bitsLen, input{ptr,len,cap} and both results back; (R18.7) cpuArchLevel's CPUID masks guarantee the psABI feature sets and every routine is only reachable at a level that has the extensions its instructions need; (R18.9) every lookup-table load in the decode loop is followed by a zero-length test branching to an invalid-* exit before bits are consumed. Semantic equivalence of an assembly routine and its Go sibling is not decided.",
+			"(R18.6) every path to RET of the decode loop writes bits, bitsLen, input{ptr,len,cap} and both results back; (R18.7) cpuArchLevel's CPUID masks guarantee the psABI feature sets and every routine is only reachable at a level that has the extensions its instructions need; (R18.9) every lookup-table load in the decode loop is followed by a zero-length test branching to an invalid-* exit before bits are consumed. (R18.10) on every path of the decode loop from a symbol boundary to the exit the output cursor has moved only by symbol counts, minus one exactly when the last symbol is not a literal - so an error exit never counts bytes that no inflater produces; (R18.11) a Go token encoder that is handed the remainder tokens[k:] of another encoder's work (possibly empty) starts with an empty-slice guard returning 0. Semantic equivalence of an assembly routine and its Go sibling is not decided.",
 		NotDecided: []string{
 			"semantic equivalence of assembly routines and their Go siblings (bit-exact output, match choices)",
 			"constants inside DATA tables of the assembly encoders (e.g. per-lane width limits)",
@@ -237,4 +239,82 @@ func ruleR18_9(p *Program, r *Report) {
 			r.Check(!found, "R18.9", key, p.asmPos(u, in), "a lookup-table entry is tested for zero code length (-> invalid exit) before its bits are consumed", why)
 		}
 	}
+}
+
+// R18.11: encoders called on a remainder slice handle the empty remainder.
+func ruleR18_11(p *Program, r *Report) {
+	if p.Cfg.Asm {
+		r.Expect("R18.11", 1)
+	}
+	n := 0
+	for _, fn := range p.Funcs() {
+		if fn.Pkg != p.Pkg(deflRel) {
+			continue
+		}
+		for _, c := range allCalls(fn) {
+			g := c.Common().StaticCallee()
+			if g == nil || g.Blocks == nil || g.Pkg != fn.Pkg || g.Signature.Results().Len() != 1 || len(c.Common().Args) < 2 {
+				continue
+			}
+			// the argument is a re-slice x[k:] whose lower bound is the result of earlier work (not a constant)
+			var sl *ssa.Slice
+			argIdx := -1
+			for i, a := range c.Common().Args {
+				if s2, ok := a.(*ssa.Slice); ok && s2.Low != nil && s2.High == nil {
+					if _, isK := constInt(s2.Low); !isK {
+						if _, isPar := s2.X.(*ssa.Parameter); isPar {
+							sl, argIdx = s2, i
+						}
+					}
+				}
+			}
+			if sl == nil || typeString(g.Signature.Results().At(0).Type()) != "int" {
+				continue
+			}
+			// only routines that report "index of the last element + 1" can over-report on an empty slice
+			plusOne := false
+			for _, b := range g.Blocks {
+				for _, in := range b.Instrs {
+					if ret, ok := in.(*ssa.Return); ok {
+						if bo, ok := ret.Results[0].(*ssa.BinOp); ok && bo.Op.String() == "+" {
+							if k, isK := constInt(bo.Y); isK && k == 1 {
+								plusOne = true
+							}
+						}
+					}
+				}
+			}
+			if !plusOne {
+				continue
+			}
+			n++
+			par := g.Params[argIdx]
+			guard := false
+			for _, b := range g.Blocks {
+				for _, in := range b.Instrs {
+					ret, ok := in.(*ssa.Return)
+					if !ok {
+						continue
+					}
+					if k, isK := constInt(ret.Results[0]); !isK || k != 0 {
+						continue
+					}
+					for _, f := range dominatingFacts(ret) {
+						if f.Y == nil || f.Op.String() != "==" {
+							continue
+						}
+						if call, isC := f.X.(*ssa.Call); isC {
+							if bi, isB := call.Common().Value.(*ssa.Builtin); isB && bi.Name() == "len" && call.Common().Args[0] == ssa.Value(par) {
+								if k, isK := constInt(f.Y); isK && k == 0 {
+									guard = true
+								}
+							}
+						}
+					}
+				}
+			}
+			r.Check(guard, "R18.11", shortFn(fn)+"|"+g.Name()+" on remainder", p.InstrPos(c), g.Name()+" is called on the remainder of a slice that may be empty and returns 0 for an empty slice", "no `len(...) == 0 -> return 0` guard: with an empty remainder the routine reports one element consumed (the acceleration levels whose first stage consumes everything)")
+		}
+	}
+	_ = n
 }
